@@ -613,7 +613,7 @@ func gen(r *rand.Rand, i int) desc {
 			d.Phases = append(d.Phases, phaseD{Oracle: string(o), Starts: []start{{0, p, 100}}})
 		}
 		return d
-	case x < 88: // contention on the semaphore: a hanging dial holds it
+	case x < 86: // contention on the semaphore: a hanging dial holds it
 		capn := 1 + r.Intn(2)
 		n := 1 + r.Intn(2)
 		d := desc{Kind: "dial", Cap: capn, N: n}
@@ -628,7 +628,19 @@ func gen(r *rand.Rand, i int) desc {
 		// afterwards the semaphore must be free again
 		d.Phases = append(d.Phases, phaseD{Oracle: strings.Repeat("a", n), Starts: []start{{0, 10, 100}}})
 		return d
-	case x < 92: // near the uint32 wrap of addrsIdx
+	case x < 90: // a long wait for the semaphore followed by a connect: the dial must still end at its own deadline
+		capn := 1 + r.Intn(2)
+		n := 1 + r.Intn(2)
+		d := desc{Kind: "dial", Cap: capn, N: n}
+		var st []start
+		for k := 0; k < capn; k++ { // the holders
+			st = append(st, start{Off: 25 * k, T: k, To: 500 + 60*k})
+		}
+		st = append(st, start{Off: 25 * capn, T: capn, To: 560 + 20*r.Intn(3)}) // waits ~400 ms, then connects to a hanging address
+		d.Phases = append(d.Phases, phaseD{Oracle: strings.Repeat("h", n), Starts: st})
+		d.Phases = append(d.Phases, phaseD{Oracle: strings.Repeat("a", n), Starts: []start{{0, 10, 100}}})
+		return d
+	case x < 93: // near the uint32 wrap of addrsIdx
 		n := 3 + r.Intn(3)
 		d := desc{Kind: "dial", Cap: 0, N: n}
 		d.Phases = append(d.Phases, phaseD{Oracle: strings.Repeat("a", n), Starts: []start{{0, 0, 100}}})
@@ -660,6 +672,10 @@ func corpus() []desc {
 		{Kind: "dial", Cap: 1, N: 1, Phases: []phaseD{{Oracle: "h", Starts: []start{{0, 0, 180}, {25, 1, 60}}}, {Oracle: "a", Starts: one(2, 100)}}},
 		{Kind: "dial", Cap: 1, N: 1, Phases: []phaseD{{Oracle: "h", Starts: []start{{0, 0, 70}, {25, 1, 180}}}, {Oracle: "a", Starts: one(2, 100)}}},
 		{Kind: "dial", Cap: 2, N: 2, Phases: []phaseD{{Oracle: "hh", Starts: []start{{0, 0, 170}, {25, 1, 240}, {50, 2, 50}}}, {Oracle: "aa", Starts: one(3, 100)}}},
+		// a dial that waited long for the semaphore must still return by ITS deadline: the connect that follows the wait gets the
+		// remaining time, not a fresh full timeout (B would come back after ~1125 ms instead of ~600 ms)
+		{Kind: "dial", Cap: 1, N: 1, Phases: []phaseD{{Oracle: "h", Starts: []start{{0, 0, 550}, {25, 1, 600}}}, {Oracle: "a", Starts: one(2, 100)}}},
+		{Kind: "dial", Cap: 2, N: 2, Phases: []phaseD{{Oracle: "hh", Starts: []start{{0, 0, 450}, {25, 1, 520}, {50, 2, 600}}}, {Oracle: "aa", Starts: one(3, 100)}}},
 		// the uint32 rotation counter wraps inside the dial (witnesses of the defect fixed by d625fef): every address must still be tried once
 		{Kind: "dial", Cap: 0, N: 3, Phases: []phaseD{{Oracle: "aaa", Starts: one(0, 100)}, {Oracle: "rra", SetIdx: u(1<<32 - 2), Starts: one(1, 100)}}},
 		{Kind: "dial", Cap: 0, N: 3, Phases: []phaseD{{Oracle: "aaa", Starts: one(0, 100)}, {Oracle: "rrr", SetIdx: u(1<<32 - 2), Starts: one(1, 100)}}},
